@@ -145,7 +145,7 @@ m = {
    "kind_free_text": "TLA+ resource-tree specification; TLC model check + case generation; Go recorder on the real webdav.Handler; TLC trace-validation judge"},
  ],
  "checks": checks,
- "notes": "All checks: bin/check <id> [--tier quick|thorough] [--replay file]; exit 0 held / 1 violation / 2 machinery failure. Known findings: known_findings.json.",
+ "notes": "All checks: bin/check <id> [--tier quick|thorough] [--replay file]; exit 0 held / 1 violation / 2 machinery failure. Known findings: known_findings.json (open findings by signature or by a pattern over signatures; repaired defects as fixed: lines). seeded/: 230 confirmed property-breaking changes with the check that reports each; benign/: 24 property-preserving changes used to hunt false alarms (tools/benignrun.sh); tools/seedpar.sh runs seeded changes on scratch copies of the repository (VERIF_REPO), never on /repo.",
  "not_applicable": na,
 }
 json.dump(m, open(os.path.join(HERE, "MANIFEST.json"), "w"), indent=1)
